@@ -137,4 +137,630 @@ def gen_conv_formulas(ctx=None):
     return "\n".join(out)
 
 
-GENERATORS = {"ConvFormulas": gen_conv_formulas}
+
+# ======================================================================================================
+#  Gen/ConvWiring.lean — loop wiring, zero-stuffing, stride slice, `+=`, allocation dtypes of
+#  `_convolve`, `_convolve_data_adjoint`, `_convolve_filter_adjoint`
+# ======================================================================================================
+WIRING_HEADER = """/- GENERATED by harness/translate/gen_c08.py from sigpy/conv.py — do not edit; regenerated on every check. -/
+set_option linter.unusedVariables false
+namespace SigpyVerif.Gen
+
+/-- the three loop ranges of the (batch, output channel, input channel) nest: `range(B)`, `range(c_o)`, `range(c_i)` -/
+inductive ConvDim where
+  | B | co | ci
+deriving DecidableEq, Repr
+
+/-- the arrays of the three functions -/
+inductive ConvArr where
+  | data | filt | output | outputKj
+deriving DecidableEq, Repr
+
+inductive ConvOp where
+  | convolve | correlate
+deriving DecidableEq, Repr
+
+/-- which variable is passed as `mode=` to scipy -/
+inductive ConvModeArg where
+  | mode | adjointMode
+deriving DecidableEq, Repr
+
+/-- trailing (spatial) part of a normalised shape -/
+inductive ConvTail where
+  | m | n | p
+deriving DecidableEq, Repr
+
+"""
+
+_DIMS = {"B": "B", "c_o": "co", "c_i": "ci"}
+_ARRS = {"data": "data", "filt": "filt", "output": "output", "output_kj": "outputKj"}
+_PARAM_NAMES = ["D", "b", "B", "m", "n", "s", "c_i", "c_o", "p"]
+
+
+def _dim(x):
+    return "ConvDim." + x
+
+
+def _arr(x):
+    return "ConvArr." + x
+
+
+def _is_name(e, name=None):
+    return isinstance(e, ast.Name) and (name is None or e.id == name)
+
+
+def _lead_tail(e):
+    """`(R1, R2) + T` with R1, R2 in B/c_o/c_i and T in m/n/p -> (dim, dim, tail)"""
+    if isinstance(e, ast.BinOp) and isinstance(e.op, ast.Add) and isinstance(e.left, ast.Tuple) \
+            and len(e.left.elts) == 2 and all(_is_name(x) and x.id in _DIMS for x in e.left.elts) \
+            and _is_name(e.right) and e.right.id in ("m", "n", "p"):
+        return _DIMS[e.left.elts[0].id], _DIMS[e.left.elts[1].id], e.right.id
+    raise T.Unsupported("normalised shape is not `(R1, R2) + T`: %s" % ast.dump(e)[:100])
+
+
+def _dtype_of(call):
+    """keyword `dtype=X.dtype` of an np.zeros / np.empty call -> (array X, zeros?)"""
+    if not (isinstance(call, ast.Call) and isinstance(call.func, ast.Attribute) and _is_name(call.func.value, "np")
+            and call.func.attr in ("zeros", "empty") and len(call.args) == 1):
+        raise T.Unsupported("allocation is not np.zeros/np.empty(shape, dtype=…): %s" % ast.dump(call)[:100])
+    kws = {k.arg: k.value for k in call.keywords}
+    if set(kws) != {"dtype"}:
+        raise T.Unsupported("allocation keywords %s (expected dtype=X.dtype)" % sorted(kws, key=str))
+    d = kws["dtype"]
+    if not (isinstance(d, ast.Attribute) and d.attr == "dtype" and _is_name(d.value) and d.value.id in _ARRS):
+        raise T.Unsupported("dtype is not `<array>.dtype`: %s" % ast.dump(d)[:80])
+    return _ARRS[d.value.id], call.func.attr == "zeros"
+
+
+def _idx2(sub, env):
+    """`ARR[v, w]` with v, w loop variables -> (arr, (dim, dim))"""
+    if not (isinstance(sub, ast.Subscript) and _is_name(sub.value) and sub.value.id in _ARRS):
+        raise T.Unsupported("operand is not `<array>[v, w]`: %s" % ast.dump(sub)[:100])
+    sl = sub.slice
+    if not (isinstance(sl, ast.Tuple) and len(sl.elts) == 2 and all(_is_name(x) for x in sl.elts)):
+        raise T.Unsupported("index of %s is not a pair of loop variables" % sub.value.id)
+    for x in sl.elts:
+        if x.id not in env:
+            raise T.Unsupported("index variable %s of %s is not a variable of an enclosing loop" % (x.id, sub.value.id))
+    return _ARRS[sub.value.id], (env[sl.elts[0].id], env[sl.elts[1].id])
+
+
+def _is_slc_def(v):
+    """`tuple(slice(None, None, s_d) for s_d in s)`"""
+    if not (isinstance(v, ast.Call) and _is_name(v.func, "tuple") and len(v.args) == 1 and not v.keywords
+            and isinstance(v.args[0], ast.GeneratorExp) and len(v.args[0].generators) == 1):
+        return False
+    g = v.args[0].generators[0]
+    e = v.args[0].elt
+    if g.ifs or not _is_name(g.iter, "s") or not _is_name(g.target):
+        return False
+    return (isinstance(e, ast.Call) and _is_name(e.func, "slice") and len(e.args) == 3 and not e.keywords
+            and all(isinstance(a, ast.Constant) and a.value is None for a in e.args[:2])
+            and _is_name(e.args[2], g.target.id))
+
+
+def _nest(stmts, env, order, found, path):
+    """walk the loop nest; `env`: loop variable -> dim of the enclosing loops; `found`: statements collected"""
+    for pos, s in enumerate(stmts):
+        here = path + [pos]
+        if isinstance(s, ast.For):
+            it = s.iter
+            if s.orelse or not _is_name(s.target) or not (isinstance(it, ast.Call) and _is_name(it.func, "range")
+                                                          and len(it.args) == 1 and not it.keywords
+                                                          and _is_name(it.args[0]) and it.args[0].id in _DIMS):
+                raise T.Unsupported("loop is not `for v in range(B | c_o | c_i)`: %s" % ast.dump(s.iter)[:80])
+            dim = _DIMS[it.args[0].id]
+            if dim in env.values() or s.target.id in env:
+                raise T.Unsupported("loop over %s nested twice / loop variable reused" % it.args[0].id)
+            found.setdefault("loops", []).append((dim, here))
+            env2 = dict(env)
+            env2[s.target.id] = dim
+            _nest(s.body, env2, order + [dim], found, here)
+        elif isinstance(s, ast.Assign) and len(s.targets) == 1 and isinstance(s.targets[0], ast.Subscript) \
+                and _is_name(s.targets[0].value, "output_kj"):
+            if "stuff" in found:
+                raise T.Unsupported("two assignments into output_kj")
+            tgt = s.targets[0]
+            arr, idx = _idx2(s.value, env)
+            found["stuff"] = dict(sliced=_is_name(tgt.slice, "slc"), arr=arr, idx=idx, scope=list(order), path=here)
+            if not found["stuff"]["sliced"] and not (isinstance(tgt.slice, ast.Constant) and tgt.slice.value is Ellipsis):
+                raise T.Unsupported("output_kj is written through an index other than [slc] / [...]")
+        elif isinstance(s, (ast.AugAssign, ast.Assign)):
+            tgt = s.target if isinstance(s, ast.AugAssign) else (s.targets[0] if len(s.targets) == 1 else None)
+            if isinstance(s, ast.AugAssign) and not isinstance(s.op, ast.Add):
+                raise T.Unsupported("augmented assignment other than +=")
+            if "acc" in found:
+                raise T.Unsupported("two accumulate statements in the nest")
+            arr, idx = _idx2(tgt, env)
+            v = s.value
+            sliced = False
+            if isinstance(v, ast.Subscript):
+                if not _is_name(v.slice, "slc"):
+                    raise T.Unsupported("result is indexed with something other than [slc]")
+                sliced, v = True, v.value
+            if not (isinstance(v, ast.Call) and isinstance(v.func, ast.Attribute) and _is_name(v.func.value, "signal")
+                    and v.func.attr in ("convolve", "correlate") and len(v.args) == 2):
+                raise T.Unsupported("accumulated term is not signal.convolve / signal.correlate (a, b, mode=…): %s" % ast.dump(v)[:100])
+            kws = {k.arg: k.value for k in v.keywords}
+            if set(kws) != {"mode"} or not (_is_name(kws["mode"]) and kws["mode"].id in ("mode", "adjoint_mode")):
+                raise T.Unsupported("scipy call keywords %s" % sorted(kws, key=str))
+            ops = []
+            for a in v.args:
+                if _is_name(a):
+                    if a.id not in _ARRS:
+                        raise T.Unsupported("operand %s" % a.id)
+                    ops.append((_ARRS[a.id], None))
+                else:
+                    ops.append(_idx2(a, env))
+            found["acc"] = dict(arr=arr, idx=idx, add=isinstance(s, ast.AugAssign), sliced=sliced, op=v.func.attr,
+                                mode="adjointMode" if kws["mode"].id == "adjoint_mode" else "mode", ops=ops,
+                                scope=list(order), path=here)
+        else:
+            raise T.Unsupported("statement in the loop nest outside the subset: %s" % ast.dump(s)[:100])
+
+
+def _wiring(tree, fname, prefix, adjoint, shape_args, out):
+    fn = T.find_function(tree, fname)
+    body = [s for s in fn.body if not (isinstance(s, ast.Expr) and isinstance(s.value, ast.Constant))]
+    layout, alloc, final, found = {}, {}, {}, {}
+    seen_loop = seen_slc = seen_params = seen_mode = False
+    ret = None
+    for s in body:
+        if ret is not None:
+            raise T.Unsupported("%s: code after return" % fname)
+        if isinstance(s, ast.Assign) and len(s.targets) == 1 and isinstance(s.targets[0], ast.Tuple):
+            names = [getattr(e, "id", None) for e in s.targets[0].elts]
+            v = s.value
+            if names != _PARAM_NAMES or seen_params or seen_loop or not (
+                    isinstance(v, ast.Call) and _is_name(v.func, "_get_convolve_params") and not v.keywords
+                    and [ast.unparse(a) for a in v.args] == shape_args + ["mode", "strides", "multi_channel"]):
+                raise T.Unsupported("%s: `D, b, B, m, n, s, c_i, c_o, p = _get_convolve_params(%s, mode, strides, multi_channel)` "
+                                    "expected, got %s" % (fname, ", ".join(shape_args), ast.unparse(s)[:160]))
+            seen_params = True
+        elif isinstance(s, ast.Assign) and len(s.targets) == 1 and _is_name(s.targets[0]):
+            name, v = s.targets[0].id, s.value
+            if name == "slc":
+                if seen_slc or seen_loop or not _is_slc_def(v):
+                    raise T.Unsupported("%s: slc is not `tuple(slice(None, None, s_d) for s_d in s)`" % fname)
+                seen_slc = True
+            elif name in ("data", "filt", "output"):
+                is_reshape = (isinstance(v, ast.Call) and isinstance(v.func, ast.Attribute) and v.func.attr == "reshape"
+                              and _is_name(v.func.value, name) and len(v.args) == 1 and not v.keywords)
+                if is_reshape and not seen_loop:
+                    if name in layout:
+                        raise T.Unsupported("%s: %s normalised twice" % (fname, name))
+                    layout[name] = _lead_tail(v.args[0])
+                elif is_reshape and seen_loop:
+                    final[name] = ast.unparse(v.args[0])
+                elif not seen_loop:
+                    if name in layout:
+                        raise T.Unsupported("%s: %s normalised twice" % (fname, name))
+                    alloc[name] = _dtype_of(v)
+                    layout[name] = _lead_tail(v.args[0])
+                else:
+                    raise T.Unsupported("%s: assignment to %s after the loops: %s" % (fname, name, ast.unparse(s)[:100]))
+            elif name == "data_shape" or name == "filt_shape":
+                raise T.Unsupported("%s: %s reassigned" % (fname, name))
+            else:
+                raise T.Unsupported("%s: assignment to %s outside the subset" % (fname, name))
+        elif isinstance(s, ast.If) and adjoint and not seen_loop and not seen_mode:
+            br = _mode_branches(fn)
+            if s.body is not br["full"]:
+                raise T.Unsupported("%s: unexpected conditional before the loops" % fname)
+            seen_mode = True
+            for mo in ("full", "valid"):
+                for t in br[mo]:
+                    ok = (isinstance(t, ast.Assign) and len(t.targets) == 1 and _is_name(t.targets[0])
+                          and t.targets[0].id in ("output_kj", "adjoint_mode"))
+                    if isinstance(t, ast.If) and mo == "valid":
+                        ok = all(isinstance(u, ast.Assign) and len(u.targets) == 1 and _is_name(u.targets[0], "adjoint_mode")
+                                 for u in t.body + t.orelse)
+                    if not ok:
+                        raise T.Unsupported("%s: statement in the mode branches outside the subset: %s" % (fname, ast.unparse(t)[:100]))
+                alloc["output_kj:" + mo] = _dtype_of(_assign_in(br[mo], "output_kj"))
+        elif isinstance(s, ast.If) and not adjoint and seen_loop and _is_name(s.test, "multi_channel"):
+            # final reshape of `_convolve` (numpy plumbing: validated by the correspondence)
+            for t in s.body + s.orelse:
+                if not (isinstance(t, ast.Assign) and len(t.targets) == 1 and _is_name(t.targets[0], "output")
+                        and isinstance(t.value, ast.Call) and isinstance(t.value.func, ast.Attribute)
+                        and t.value.func.attr == "reshape" and _is_name(t.value.func.value, "output")):
+                    raise T.Unsupported("%s: final reshape outside the subset: %s" % (fname, ast.unparse(t)[:100]))
+        elif isinstance(s, ast.For):
+            if seen_loop:
+                raise T.Unsupported("%s: two loop nests" % fname)
+            seen_loop = True
+            _nest([s], {}, [], found, [])
+        elif isinstance(s, ast.Return):
+            ret = s.value
+        else:
+            raise T.Unsupported("%s: statement outside the subset: %s" % (fname, ast.unparse(s)[:100]))
+    if not (seen_params and seen_slc and seen_loop and "acc" in found) or (adjoint and not (seen_mode and "stuff" in found)) \
+            or (not adjoint and "stuff" in found):
+        raise T.Unsupported("%s: parameters / slc / loop nest / accumulate / zero-stuffing statement not all found" % fname)
+    acc = found["acc"]
+    loops = [d for d, _ in found["loops"]]
+    if sorted(loops) != ["B", "ci", "co"]:
+        raise T.Unsupported("%s: loops range over %s, expected B, c_o, c_i once each" % (fname, loops))
+    if not (_is_name(ret) and _ARRS.get(ret.id) == acc["arr"]):
+        raise T.Unsupported("%s: the returned array is not the accumulated one" % fname)
+    for a in ("data", "filt", "output"):
+        if a not in layout:
+            raise T.Unsupported("%s: %s is not normalised to `(R1, R2) + T`" % (fname, a))
+    if acc["arr"] not in alloc:
+        raise T.Unsupported("%s: the accumulated array %s is not allocated in the function" % (fname, acc["arr"]))
+    pair = lambda ix: "(%s, %s)" % (_dim(ix[0]), _dim(ix[1]))
+    lst = lambda l: "[" + ", ".join(_dim(x) for x in l) + "]"
+    b = lambda x: "true" if x else "false"
+    src = "`%s`" % fname
+    o = out.append
+    o("/-! ### %s -/\n" % src)
+    o("/-- %s: the loop ranges, outermost first -/\ndef %sLoops : List ConvDim := %s\n" % (src, prefix, lst(loops)))
+    o("/-- %s: the array and the slice the loop body accumulates into (`X[v, w] += …`), v, w named by the loop they come from -/\n"
+      "def %sAccArr : ConvArr := %s\ndef %sAccIdx : ConvDim × ConvDim := %s\n" % (src, prefix, _arr(acc["arr"]), prefix, pair(acc["idx"])))
+    o("/-- %s: `+=` (true) or `=` (false) -/\ndef %sAccIsAdd : Bool := %s\n" % (src, prefix, b(acc["add"])))
+    o("/-- %s: the loops enclosing the accumulate statement -/\ndef %sAccScope : List ConvDim := %s\n" % (src, prefix, lst(acc["scope"])))
+    o("/-- %s: scipy function, its `mode=` argument, and whether `[slc]` is applied to the result -/\n"
+      "def %sOp : ConvOp := ConvOp.%s\ndef %sModeArg : ConvModeArg := ConvModeArg.%s\ndef %sResultSliced : Bool := %s\n" % (
+          src, prefix, acc["op"], prefix, acc["mode"], prefix, b(acc["sliced"])))
+    (la, li), (ra, ri) = acc["ops"]
+    if ri is None:
+        raise T.Unsupported("%s: second operand is not `<array>[v, w]`" % fname)
+    if adjoint:
+        if li is not None:
+            raise T.Unsupported("%s: first operand of the scipy call is not a buffer name" % fname)
+        st = found["stuff"]
+        # the stuffing statement precedes the use iff, at the first position where the two statement paths differ, it comes first
+        before = st["path"][:len(st["path"]) - 1] == acc["path"][:len(st["path"]) - 1] and st["path"][-1] < acc["path"][len(st["path"]) - 1]
+        o("/-- %s: first operand of the scipy call (the zero-stuffed buffer) -/\ndef %sLhsArr : ConvArr := %s\n" % (src, prefix, _arr(la)))
+        o("/-- %s: `output_kj[slc] = X[v, w]`: the array and slice copied into the buffer, whether the target is `[slc]`,\n"
+          "    the loops enclosing the statement, and whether it precedes the use in the same iteration -/\n"
+          "def %sBufSrcArr : ConvArr := %s\ndef %sBufSrcIdx : ConvDim × ConvDim := %s\ndef %sBufSliced : Bool := %s\n"
+          "def %sStuffScope : List ConvDim := %s\ndef %sStuffBeforeUse : Bool := %s\n" % (
+              src, prefix, _arr(st["arr"]), prefix, pair(st["idx"]), prefix, b(st["sliced"]), prefix, lst(st["scope"]), prefix, b(before)))
+    else:
+        if li is None:
+            raise T.Unsupported("%s: first operand is not `<array>[v, w]`" % fname)
+        o("/-- %s: first operand -/\ndef %sLhsArr : ConvArr := %s\ndef %sLhsIdx : ConvDim × ConvDim := %s\n" % (src, prefix, _arr(la), prefix, pair(li)))
+    o("/-- %s: second operand -/\ndef %sRhsArr : ConvArr := %s\ndef %sRhsIdx : ConvDim × ConvDim := %s\n" % (src, prefix, _arr(ra), prefix, pair(ri)))
+    for a in ("data", "filt", "output"):
+        l = layout[a]
+        o("/-- %s: normalised shape of `%s` -/\ndef %sLayout_%s : ConvDim × ConvDim × ConvTail := (%s, %s, ConvTail.%s)\n" % (
+            src, a, prefix, a, _dim(l[0]), _dim(l[1]), l[2]))
+    da, dz = alloc[acc["arr"]]
+    o("/-- %s: the accumulated array is allocated with `dtype=<this array>.dtype`, by np.zeros (true) / np.empty (false) -/\n"
+      "def %sAccDtype : ConvArr := %s\ndef %sAccZeros : Bool := %s\n" % (src, prefix, _arr(da), prefix, b(dz)))
+    if adjoint:
+        for mo, suf in (("full", "Full"), ("valid", "Valid")):
+            da, dz = alloc["output_kj:" + mo]
+            o("/-- %s (mode '%s'): dtype source and zero-initialisation of `output_kj` -/\n"
+              "def %sBufDtype%s : ConvArr := %s\ndef %sBufZeros%s : Bool := %s\n" % (src, mo, prefix, suf, _arr(da), prefix, suf, b(dz)))
+
+
+def gen_conv_wiring(ctx=None):
+    tree = G._parse("sigpy/conv.py")
+    out = [WIRING_HEADER]
+    _wiring(tree, "_convolve", "conv", False, ["data.shape", "filt.shape"], out)
+    _wiring(tree, "_convolve_data_adjoint", "dataAdj", True, ["data_shape", "filt.shape"], out)
+    _wiring(tree, "_convolve_filter_adjoint", "filtAdj", True, ["data.shape", "filt_shape"], out)
+    out.append("end SigpyVerif.Gen\n")
+    return "\n".join(out)
+
+
+
+# ======================================================================================================
+#  Gen/ConvLinops.lean — the four Linop wrappers of sigpy/linop.py
+# ======================================================================================================
+LINOPS_HEADER = """/- GENERATED by harness/translate/gen_c08.py from sigpy/linop.py — do not edit; regenerated on every check. -/
+set_option linter.unusedVariables false
+namespace SigpyVerif.Gen
+
+inductive ConvCls where
+  | data | dataAdjoint | filter | filterAdjoint
+deriving DecidableEq, Repr
+
+/-- shape-valued symbols in a constructor: its own shape argument, the `.shape` of its array argument, the
+    `output_shape` it computes from `_get_convolve_params` -/
+inductive LinopShape where
+  | shapeArg | arrayShape | outputShape
+deriving DecidableEq, Repr
+
+/-- positional arguments of the `conv.*` call in `_apply` / of the constructor call in `_adjoint_linop` -/
+inductive LinopArg where
+  | input | array | oshape | ishape
+deriving DecidableEq, Repr
+
+inductive ConvFn where
+  | convolve | dataAdjoint | filterAdjoint
+deriving DecidableEq, Repr
+
+/-- which array a class freezes -/
+inductive LinopArray where
+  | filt | data
+deriving DecidableEq, Repr
+
+structure ConvLinop where
+  /-- the array the constructor takes and stores -/
+  array : LinopArray
+  /-- `self.<array> = <array>`, `self.mode = mode`, `self.strides = strides`, `self.multi_channel = multi_channel` -/
+  stores : Bool
+  /-- `_get_convolve_params(<data shape>, <filter shape>, mode, strides, multi_channel)` -/
+  paramsArgs : LinopShape × LinopShape
+  /-- `output_shape = b + (c_o,) + p if multi_channel else b + p` -/
+  outputShapeOk : Bool
+  /-- `super().__init__(oshape, ishape)` -/
+  superArgs : LinopShape × LinopShape
+  applyFn : ConvFn
+  applyArgs : List LinopArg
+  /-- `mode=self.mode, strides=self.strides, multi_channel=self.multi_channel` in `_apply` -/
+  applyPasses : Bool × Bool × Bool
+  adjClass : ConvCls
+  adjArgs : List LinopArg
+  /-- the same three keywords in `_adjoint_linop` -/
+  adjPasses : Bool × Bool × Bool
+deriving DecidableEq, Repr
+
+"""
+
+_CLS = [("ConvolveData", "data"), ("ConvolveDataAdjoint", "dataAdjoint"), ("ConvolveFilter", "filter"),
+        ("ConvolveFilterAdjoint", "filterAdjoint")]
+_KW3 = ["mode", "strides", "multi_channel"]
+
+
+def _self_attr(e, name=None):
+    return isinstance(e, ast.Attribute) and _is_name(e.value, "self") and (name is None or e.attr == name)
+
+
+def _kw_pass(call):
+    """keywords must be exactly mode/strides/multi_channel; flag = value is `self.<same name>`"""
+    kws = {k.arg: k.value for k in call.keywords}
+    if set(kws) != set(_KW3):
+        raise T.Unsupported("keywords %s (expected mode, strides, multi_channel)" % sorted(kws, key=str))
+    return "(%s)" % ", ".join("true" if _self_attr(kws[k], k) else "false" for k in _KW3)
+
+
+def _linop(tree, cls):
+    init = T.find_function(tree, cls + ".__init__")
+    args = [a.arg for a in init.args.args]
+    if len(args) != 6 or args[0] != "self" or args[3:] != _KW3 or args[2] not in ("filt", "data") \
+            or [ast.unparse(d) for d in init.args.defaults] != ["'full'", "None", "False"]:
+        raise T.Unsupported("%s.__init__ signature %s" % (cls, args))
+    shp, arrn = args[1], args[2]
+    stores = set()
+    params = superargs = None
+    out_ok = False
+    for s in init.body:
+        if isinstance(s, ast.Expr) and isinstance(s.value, ast.Constant):
+            continue
+        if isinstance(s, ast.Assign) and len(s.targets) == 1 and _self_attr(s.targets[0]):
+            if not _is_name(s.value, s.targets[0].attr):
+                raise T.Unsupported("%s.__init__: %s" % (cls, ast.unparse(s)))
+            stores.add(s.targets[0].attr)
+        elif isinstance(s, ast.Assign) and isinstance(s.targets[0], ast.Tuple):
+            v = s.value
+            if [getattr(e, "id", None) for e in s.targets[0].elts] != _PARAM_NAMES or not (
+                    isinstance(v, ast.Call) and ast.unparse(v.func) == "conv._get_convolve_params" and not v.keywords
+                    and len(v.args) == 5 and [ast.unparse(a) for a in v.args[2:]] == _KW3):
+                raise T.Unsupported("%s.__init__: %s" % (cls, ast.unparse(s)[:120]))
+            sym = {shp: "shapeArg", arrn + ".shape": "arrayShape"}
+            try:
+                params = tuple(sym[ast.unparse(a)] for a in v.args[:2])
+            except KeyError:
+                raise T.Unsupported("%s.__init__: shape arguments of _get_convolve_params: %s" % (cls, ast.unparse(v)[:120]))
+        elif isinstance(s, ast.If) and _is_name(s.test, "multi_channel"):
+            out_ok = ([ast.unparse(t) for t in s.body] == ["output_shape = b + (c_o,) + p"]
+                      and [ast.unparse(t) for t in s.orelse] == ["output_shape = b + p"])
+        elif isinstance(s, ast.Expr) and isinstance(s.value, ast.Call) and ast.unparse(s.value.func) == "super().__init__":
+            sym = {shp: "shapeArg", "output_shape": "outputShape"}
+            try:
+                superargs = tuple(sym[ast.unparse(a)] for a in s.value.args)
+            except KeyError:
+                raise T.Unsupported("%s.__init__: %s" % (cls, ast.unparse(s)[:120]))
+            if len(superargs) != 2 or s.value.keywords:
+                raise T.Unsupported("%s.__init__: %s" % (cls, ast.unparse(s)[:120]))
+        else:
+            raise T.Unsupported("%s.__init__: statement outside the subset: %s" % (cls, ast.unparse(s)[:120]))
+    if params is None or superargs is None:
+        raise T.Unsupported("%s.__init__: _get_convolve_params / super().__init__ call not found" % cls)
+
+    def one_return_call(fn):
+        rets = [n for n in ast.walk(fn) if isinstance(n, ast.Return)]
+        if len(rets) != 1 or not isinstance(rets[0].value, ast.Call):
+            raise T.Unsupported("%s.%s: expected exactly one `return <call>`" % (cls, fn.name))
+        return rets[0].value
+
+    # _apply: local names assigned from backend.to_device(self.<array>, device) stand for the array
+    ap = T.find_function(tree, cls + "._apply")
+    if [a.arg for a in ap.args.args] != ["self", "input"]:
+        raise T.Unsupported("%s._apply signature" % cls)
+    local = {}
+    for n in ast.walk(ap):
+        if isinstance(n, ast.Assign) and len(n.targets) == 1 and _is_name(n.targets[0]):
+            v = n.value
+            if isinstance(v, ast.Call) and ast.unparse(v.func) == "backend.to_device" and len(v.args) == 2 and _self_attr(v.args[0]):
+                local[n.targets[0].id] = v.args[0].attr
+            elif n.targets[0].id == "device" and ast.unparse(v) == "backend.get_device(input)":
+                pass
+            else:
+                raise T.Unsupported("%s._apply: %s" % (cls, ast.unparse(n)[:100]))
+
+    def argsym(a, where):
+        if _is_name(a, "input"):
+            return "input"
+        if _is_name(a) and local.get(a.id) == arrn:
+            return "array"
+        if _self_attr(a, arrn):
+            return "array"
+        if _self_attr(a, "oshape"):
+            return "oshape"
+        if _self_attr(a, "ishape"):
+            return "ishape"
+        raise T.Unsupported("%s.%s: argument %s" % (cls, where, ast.unparse(a)[:60]))
+
+    call = one_return_call(ap)
+    fnname = ast.unparse(call.func)
+    fns = {"conv.convolve": "convolve", "conv.convolve_data_adjoint": "dataAdjoint", "conv.convolve_filter_adjoint": "filterAdjoint"}
+    if fnname not in fns:
+        raise T.Unsupported("%s._apply calls %s" % (cls, fnname))
+    ap_args = [argsym(a, "_apply") for a in call.args]
+    ap_pass = _kw_pass(call)
+    adj = T.find_function(tree, cls + "._adjoint_linop")
+    call2 = one_return_call(adj)
+    if len(adj.body) != 1 or not _is_name(call2.func) or call2.func.id not in dict(_CLS):
+        raise T.Unsupported("%s._adjoint_linop: %s" % (cls, ast.unparse(adj)[:120]))
+    adj_args = [argsym(a, "_adjoint_linop") for a in call2.args]
+    return ("{ array := LinopArray.%s, stores := %s, paramsArgs := (LinopShape.%s, LinopShape.%s), outputShapeOk := %s,\n"
+            "      superArgs := (LinopShape.%s, LinopShape.%s), applyFn := ConvFn.%s, applyArgs := [%s], applyPasses := %s,\n"
+            "      adjClass := ConvCls.%s, adjArgs := [%s], adjPasses := %s }" % (
+                arrn, "true" if stores == {arrn, "mode", "strides", "multi_channel"} else "false", params[0], params[1],
+                "true" if out_ok else "false", superargs[0], superargs[1], fns[fnname],
+                ", ".join("LinopArg." + a for a in ap_args), ap_pass, dict(_CLS)[call2.func.id],
+                ", ".join("LinopArg." + a for a in adj_args), _kw_pass(call2)))
+
+
+def gen_conv_linops(ctx=None):
+    tree = G._parse("sigpy/linop.py")
+    out = [LINOPS_HEADER]
+    out.append("/-- generated from the classes ConvolveData / ConvolveDataAdjoint / ConvolveFilter / ConvolveFilterAdjoint -/\n"
+               "def convLinop : ConvCls → ConvLinop")
+    for cls, lean in _CLS:
+        out.append("  | ConvCls.%s =>  -- %s\n    %s" % (lean, cls, _linop(tree, cls)))
+    out.append("\nend SigpyVerif.Gen\n")
+    return "\n".join(out)
+
+
+
+# ======================================================================================================
+#  Gen/ConvParams.lean — how `_get_convolve_params` splits the two shapes into b, m, n, c_i, c_o
+# ======================================================================================================
+PARAMS_HEADER = """/- GENERATED by harness/translate/gen_c08.py from sigpy/conv.py — do not edit; regenerated on every check. -/
+import SigpyVerif.Model.Py
+set_option linter.unusedVariables false
+namespace SigpyVerif.Gen
+open SigpyVerif
+
+/-- the two shape arguments of `_get_convolve_params` -/
+inductive ConvShapeArg where
+  | dataShape | filtShape
+deriving DecidableEq, Repr
+
+"""
+
+
+class _Subst(ast.NodeTransformer):
+    """`len(filt_shape)` -> lenF, `len(data_shape)` -> lenD (so that T.formula sees plain int variables)"""
+
+    def visit_Call(self, n):
+        if _is_name(n.func, "len") and len(n.args) == 1 and _is_name(n.args[0]) and n.args[0].id in ("filt_shape", "data_shape"):
+            return ast.copy_location(ast.Name(id="lenF" if n.args[0].id == "filt_shape" else "lenD", ctx=ast.Load()), n)
+        return self.generic_visit(n)
+
+
+def _pf(e, names):
+    return T.formula(_Subst().visit(ast.parse(ast.unparse(e), mode="eval").body), names)
+
+
+def _shape_arg(e):
+    if _is_name(e) and e.id in ("data_shape", "filt_shape"):
+        return "ConvShapeArg." + ("dataShape" if e.id == "data_shape" else "filtShape")
+    raise T.Unsupported("not data_shape / filt_shape: %s" % ast.unparse(e)[:60])
+
+
+def _item(e):
+    """`X_shape[E]` -> (shape arg, Lean formula of E over D, multi_channel)"""
+    if isinstance(e, ast.Subscript) and not isinstance(e.slice, (ast.Slice, ast.Tuple)):
+        return _shape_arg(e.value), _pf(e.slice, ["D", "multi_channel"])
+    raise T.Unsupported("not an item of a shape: %s" % ast.unparse(e)[:60])
+
+
+def gen_conv_params(ctx=None):
+    tree = G._parse("sigpy/conv.py")
+    fn = T.find_function(tree, "_get_convolve_params")
+    if [a.arg for a in fn.args.args] != ["data_shape", "filt_shape", "mode", "strides", "multi_channel"]:
+        raise T.Unsupported("_get_convolve_params signature")
+    body = [s for s in fn.body if not (isinstance(s, ast.Expr) and isinstance(s.value, ast.Constant))]
+    out = [PARAMS_HEADER]
+    o = out.append
+    got = {}
+    i = 0
+    # leading simple assignments: D, m, n, b, B (any order, each once)
+    while i < len(body) and isinstance(body[i], ast.Assign) and len(body[i].targets) == 1 and _is_name(body[i].targets[0]):
+        name, v = body[i].targets[0].id, body[i].value
+        if name in got:
+            raise T.Unsupported("_get_convolve_params: %s assigned twice" % name)
+        if name == "D":
+            got[name] = "def paramD (lenD lenF multi_channel : Int) : Int := %s\n" % _pf(v, ["lenD", "lenF", "multi_channel"])
+        elif name in ("m", "n", "b"):
+            if not (isinstance(v, ast.Call) and _is_name(v.func, "tuple") and len(v.args) == 1 and isinstance(v.args[0], ast.Subscript)
+                    and isinstance(v.args[0].slice, ast.Slice) and v.args[0].slice.step is None):
+                raise T.Unsupported("_get_convolve_params: %s is not tuple(<shape>[lo:hi])" % name)
+            sl = v.args[0].slice
+            if "D" not in got:
+                raise T.Unsupported("_get_convolve_params: %s computed before D" % name)
+            if name in ("m", "n") and sl.lower is not None and sl.upper is None:
+                got[name] = ("/-- `%s = tuple(%s)`: the source shape and the lower slice bound -/\n"
+                             "def param%sSrc : ConvShapeArg := %s\ndef param%sLo (D multi_channel : Int) : Int := %s\n" % (
+                                 name, ast.unparse(v.args[0]), name.upper(), _shape_arg(v.args[0].value), name.upper(),
+                                 _pf(sl.lower, ["D", "multi_channel"])))
+            elif name == "b" and sl.lower is None and sl.upper is not None:
+                got[name] = ("/-- `b = tuple(%s)`: the source shape and the upper slice bound -/\n"
+                             "def paramBSrc : ConvShapeArg := %s\ndef paramBHi (D multi_channel : Int) : Int := %s\n" % (
+                                 ast.unparse(v.args[0]), _shape_arg(v.args[0].value), _pf(sl.upper, ["D", "multi_channel"])))
+            else:
+                raise T.Unsupported("_get_convolve_params: slice form of %s" % name)
+        elif name == "B":
+            if ast.unparse(v) != "util.prod(b)":
+                raise T.Unsupported("_get_convolve_params: B is not util.prod(b)")
+            got[name] = ""
+        else:
+            break
+        i += 1
+    if set(got) != {"D", "m", "n", "b", "B"}:
+        raise T.Unsupported("_get_convolve_params: D, m, n, b, B not all found at the start (%s)" % sorted(got))
+    o("/-- generated from `_get_convolve_params`: `D = %s` -/\n%s" % ("len(filt_shape) - …", got["D"]))
+    for k in ("m", "n", "b"):
+        o(got[k])
+    # if multi_channel: <check>; c_i = …; c_o = …  else: c_i = 1; c_o = 1
+    s = body[i] if i < len(body) else None
+    if not (isinstance(s, ast.If) and _is_name(s.test, "multi_channel") and len(s.body) == 3 and len(s.orelse) == 2):
+        raise T.Unsupported("_get_convolve_params: `if multi_channel:` block not found after the shape split")
+    chk, a1, a2 = s.body
+    if not (isinstance(chk, ast.If) and not chk.orelse and len(chk.body) == 1 and isinstance(chk.body[0], ast.Raise)
+            and isinstance(chk.test, ast.Compare) and len(chk.test.ops) == 1 and isinstance(chk.test.ops[0], ast.NotEq)
+            and ast.unparse(chk.body[0].exc.func) == "ValueError"):
+        raise T.Unsupported("_get_convolve_params: channel check is not `if X[..] != Y[..]: raise ValueError`")
+    (ls, li), (rs, ri) = _item(chk.test.left), _item(chk.test.comparators[0])
+    o("/-- `if <lhs shape>[i] != <rhs shape>[j]: raise ValueError` (multi_channel only) -/\n"
+      "def paramChkLhsSrc : ConvShapeArg := %s\ndef paramChkLhsIdx (D multi_channel : Int) : Int := %s\n"
+      "def paramChkRhsSrc : ConvShapeArg := %s\ndef paramChkRhsIdx (D multi_channel : Int) : Int := %s\n" % (ls, li, rs, ri))
+    for st, want in ((a1, "c_i"), (a2, "c_o")):
+        if not (isinstance(st, ast.Assign) and len(st.targets) == 1 and _is_name(st.targets[0], want)):
+            raise T.Unsupported("_get_convolve_params: expected `%s = <shape>[..]`" % want)
+        src, idx = _item(st.value)
+        nm_ = "Ci" if want == "c_i" else "Co"
+        o("/-- `%s` (multi_channel) -/\ndef param%sSrc : ConvShapeArg := %s\ndef param%sIdx (D multi_channel : Int) : Int := %s\n" % (
+            ast.unparse(st), nm_, src, nm_, idx))
+    for st, want in zip(s.orelse, ("c_i", "c_o")):
+        if not (isinstance(st, ast.Assign) and len(st.targets) == 1 and _is_name(st.targets[0], want)
+                and isinstance(st.value, ast.Constant) and isinstance(st.value.value, int) and not isinstance(st.value.value, bool)):
+            raise T.Unsupported("_get_convolve_params: expected `%s = <int>` in the single-channel branch" % want)
+        o("/-- `%s` (single channel) -/\ndef param%sDefault : Int := (%d : Int)\n" % (ast.unparse(st), "Ci" if want == "c_i" else "Co", st.value.value))
+    i += 1
+    # strides
+    s = body[i] if i < len(body) else None
+    ok = (isinstance(s, ast.If) and ast.unparse(s.test) == "strides is None" and [ast.unparse(t) for t in s.body] == ["s = (1,) * D"]
+          and len(s.orelse) == 2 and isinstance(s.orelse[0], ast.If) and ast.unparse(s.orelse[0].test) == "len(strides) != D"
+          and not s.orelse[0].orelse and len(s.orelse[0].body) == 1 and isinstance(s.orelse[0].body[0], ast.Raise)
+          and ast.unparse(s.orelse[0].body[0].exc.func) == "ValueError" and ast.unparse(s.orelse[1]) == "s = tuple(strides)")
+    if not ok:
+        raise T.Unsupported("_get_convolve_params: strides block is not `s = (1,) * D if strides is None else tuple(strides)` with the length check")
+    i += 1
+    # mode block (formulas: Gen.ConvFormulas) and the return
+    if not (i + 2 == len(body) and isinstance(body[i], ast.If) and isinstance(body[i + 1], ast.Return)
+            and ast.unparse(body[i + 1].value) == "(D, b, B, m, n, s, c_i, c_o, p)"):
+        raise T.Unsupported("_get_convolve_params: expected the mode block and `return D, b, B, m, n, s, c_i, c_o, p` at the end")
+    out.append("end SigpyVerif.Gen\n")
+    return "\n".join(out)
+
+
+GENERATORS = {"ConvFormulas": gen_conv_formulas, "ConvWiring": gen_conv_wiring, "ConvLinops": gen_conv_linops,
+              "ConvParams": gen_conv_params}
